@@ -39,6 +39,8 @@ the rules see:
   S18 conditional rebind  `if c: x = e(x)` ; rest(x)  ->  `x1 = e(x) if c else x` ; rest(x1)   (function level only)
   S19 jumping branches    `if c: A(jumps)` ; B(jumps)  ->  the shorter of A, B is the guard (`sys.exit()` counts as a jump)
   S13b scopes             a local assigned in several blocks, each use following its own assignment: one name per assignment
+  S21 match               `match x: case "a": A case B(): C case _: D`  ->  `if x == "a": A elif isinstance(x, B): C else: D`
+  S22 walrus              `if (m := f(x)) is not None: ...`  ->  `m = f(x)` ; `if m is not None: ...`
   S12 literal loops       `for x in (a, b): S(x)`  ->  `S(a)` ; `S(b)`   (at most four simple elements, no
                           `break`, `continue` only as leading guards, x not used afterwards)
 
@@ -680,6 +682,10 @@ class Canon:
     def stmt(self, s: ast.stmt, rest: List[ast.stmt], ctx: str, is_last: bool,
              prev: List[ast.stmt]) -> Optional[Tuple[List[ast.stmt], int]]:
         """A rewrite of `s` (and of `consumed` following statements), or None."""
+        if isinstance(s, (ast.If, ast.Assign, ast.Return, ast.Expr, ast.AnnAssign, ast.For, ast.AsyncFor)):
+            r8 = self._unwalrus(s)
+            if r8 is not None:
+                return r8, 0
         if isinstance(s, ast.If):
             # S1 else hoisting
             if s.orelse and jumps(s.body):
@@ -861,6 +867,11 @@ class Canon:
             if r3 is not None:
                 return r3, 0
             return None
+        if hasattr(ast, "Match") and isinstance(s, ast.Match):
+            r7 = self._unmatch(s)
+            if r7 is not None:
+                return r7, 0
+            return None
         if isinstance(s, ast.For) and not s.orelse:
             r4 = self._unroll(s, rest)
             if r4 is not None:
@@ -942,6 +953,104 @@ class Canon:
         test = gen.elt if kind in ("any", "not any") else negate(gen.elt)
         loop = self._loop(gen, test, [_loc(ast.Return(value=ast.Constant(value=hit)), s)], s)
         return [loop, _loc(ast.Return(value=ast.Constant(value=miss)), s)]
+
+    # -- S21 match statements with literal / class / wildcard patterns are if-chains
+    def _pattern_test(self, p: ast.AST, subj: ast.expr, binds: List[ast.stmt]) -> Optional[ast.expr]:
+        if isinstance(p, ast.MatchValue):
+            return ast.Compare(left=copy.deepcopy(subj), ops=[ast.Eq()], comparators=[p.value])
+        if isinstance(p, ast.MatchSingleton):
+            return ast.Compare(left=copy.deepcopy(subj), ops=[ast.Is()], comparators=[ast.Constant(value=p.value)])
+        if isinstance(p, ast.MatchOr):
+            if all(isinstance(x, ast.MatchValue) and isinstance(x.value, ast.Constant) for x in p.patterns):
+                return ast.Compare(left=copy.deepcopy(subj), ops=[ast.In()],
+                                   comparators=[ast.Tuple(elts=[x.value for x in p.patterns], ctx=ast.Load())])  # type: ignore[attr-defined]
+            tests = [self._pattern_test(x, subj, binds) for x in p.patterns]
+            if any(t is None for t in tests) or binds:
+                return None
+            return ast.BoolOp(op=ast.Or(), values=tests)  # type: ignore[arg-type]
+        if isinstance(p, ast.MatchClass) and not p.patterns and not p.kwd_patterns:
+            return ast.Call(func=ast.Name(id="isinstance", ctx=ast.Load()), args=[copy.deepcopy(subj), p.cls], keywords=[])
+        if isinstance(p, ast.MatchAs) and p.pattern is None:
+            if p.name is not None:
+                binds.append(ast.Assign(targets=[ast.Name(id=p.name, ctx=ast.Store())], value=copy.deepcopy(subj)))
+            return ast.Constant(value=True)
+        if isinstance(p, ast.MatchAs) and p.pattern is not None and p.name is not None:
+            t = self._pattern_test(p.pattern, subj, binds)
+            if t is None:
+                return None
+            binds.append(ast.Assign(targets=[ast.Name(id=p.name, ctx=ast.Store())], value=copy.deepcopy(subj)))
+            return t
+        return None
+
+    def _unmatch(self, s: ast.stmt) -> Optional[List[ast.stmt]]:
+        subj = s.subject  # type: ignore[attr-defined]
+        pre: List[ast.stmt] = []
+        if not _simple(subj):
+            facts = NameFacts(self.fn)
+            used = set(facts.stores) | set(facts.loads) | facts.special
+            k = 1
+            while f"_subject{k if k > 1 else ''}" in used:
+                k += 1
+            name = f"_subject{k if k > 1 else ''}"
+            pre.append(_loc(ast.Assign(targets=[ast.Name(id=name, ctx=ast.Store())], value=subj), s))
+            subj = ast.Name(id=name, ctx=ast.Load())
+        chain: Optional[ast.If] = None
+        tail: Optional[ast.If] = None
+        default: List[ast.stmt] = []
+        for c in s.cases:  # type: ignore[attr-defined]
+            binds: List[ast.stmt] = []
+            t = self._pattern_test(c.pattern, subj, binds)
+            if t is None:
+                return None
+            if c.guard is not None:
+                if binds:
+                    return None  # the guard may use the capture
+                t = ast.BoolOp(op=ast.And(), values=[t, c.guard])
+            body = [_loc(b, s) for b in binds] + list(c.body)
+            if isinstance(t, ast.Constant) and t.value is True:
+                default = body
+                break
+            node = _loc(ast.If(test=t, body=body, orelse=[]), c.pattern)
+            if chain is None:
+                chain = tail = node
+            else:
+                assert tail is not None
+                tail.orelse = [node]
+                tail = node
+        if chain is None:
+            return pre + default
+        assert tail is not None
+        tail.orelse = default
+        return pre + [chain]
+
+    # -- S22 `if (m := f(x)) ...`  ->  `m = f(x)` ; `if m ...`
+    def _unwalrus(self, s: ast.stmt) -> Optional[List[ast.stmt]]:
+        heads = _head_exprs(s)
+        for h in heads:
+            walrus = [n for n in ast.walk(h) if isinstance(n, ast.NamedExpr)]
+            if not walrus:
+                continue
+            w = walrus[0]
+            # evaluated exactly once, unconditionally, with no call before it
+            marker = "__walrus_probe__"
+            probe = copy.deepcopy(h)
+            for n in ast.walk(probe):
+                for f, v in ast.iter_fields(n):
+                    if isinstance(v, ast.NamedExpr) and ast.dump(v) == ast.dump(w):
+                        setattr(n, f, ast.Name(id=marker, ctx=ast.Load()))
+                    elif isinstance(v, list):
+                        for k, x in enumerate(v):
+                            if isinstance(x, ast.NamedExpr) and ast.dump(x) == ast.dump(w):
+                                v[k] = ast.Name(id=marker, ctx=ast.Load())
+            if isinstance(probe, ast.NamedExpr) and ast.dump(probe) == ast.dump(w):
+                probe = ast.Name(id=marker, ctx=ast.Load())
+            if _unconditional_loads(probe, marker) != 1 or _all_loads(probe, marker) != 1 or _effects_before(probe, marker):
+                continue
+            first = _loc(ast.Assign(targets=[ast.Name(id=w.target.id, ctx=ast.Store())], value=w.value), s)
+            new_h = _Subst(marker, ast.Name(id=w.target.id, ctx=ast.Load())).visit(probe)
+            _replace_head(s, h, new_h)
+            return [first, s]
+        return None
 
     # -- S11
     def _is_reduce(self, e: ast.expr) -> bool:
